@@ -38,6 +38,42 @@ def random_tree(rng, flav, depth=0):
     return t
 
 
+def exact_fit_tree(rng, flav):
+    """a directory whose cache records fill a cache block to its LAST byte: record length = 25 + name + comment, padded to even; names and
+    comments are chosen so that the lengths add up to exactly 488 and the last record needs no padding byte (the writer packs the blocks)"""
+    sub = {}
+    used = 0
+    i = 0
+    while True:
+        left = 488 - used
+        if left == 0:
+            break
+        if left < 26 + 1 or (left > 56 and rng.random() < 0.8):
+            nl = rng.choice([5, 7, 15, 15, 23])
+        else:
+            nl = None
+        if nl is not None and 488 - used - (25 + nl + ((25 + nl) & 1)) >= 26:
+            rl = 25 + nl + ((25 + nl) & 1)
+            cm = b""
+        else:
+            # the record that closes the block: name + comment sized to end exactly at byte 488, unpadded length even
+            if left & 1 or left < 26 or left > 25 + 30 + 79:
+                # cannot close here: start over
+                sub, used, i = {}, 0, 0
+                continue
+            nl = min(30, max(1, left - 25 - rng.choice([0, 0, 4])))
+            cm = b"c" * (left - 25 - nl)
+            rl = left
+        nm = (b"e%02d_" % i + b"abcdefghijklmnopqrstuvwxyz0123")[:nl]
+        if rng.random() < 0.25 and not cm:
+            sub[nm] = {}
+        else:
+            sub[nm] = [bytes(rng.randrange(256) for _ in range(rng.choice([0, 10, 700]))), 0, cm]
+        used += rl
+        i += 1
+    return {b"full": sub, b"other": [b"xyz", 0, b""]}
+
+
 def add_links(rng, t, path=()):
     files = []
 
@@ -289,6 +325,16 @@ def run(ctx):
         jobs.append((path, n, flav, flatten(tree), {"flavour": flav, "blocks": n, "policy": pol, "entries": len(flatten(tree)), "extra_cylinders": extra}))
         if len(ctx.samples) < 2:
             ctx.sample({"flavour": flav, "blocks": n, "policy": pol, "names": [hexs(k) for k in tree]})
+
+    # directed: cache blocks filled to their last byte (the packing writer), both cache flavours
+    for i in range(6 if ctx.tier == "quick" else 80):
+        flav = rng.choice([4, 5])
+        tree = exact_fit_tree(rng, flav)
+        im = mkimage.Image(1760, flav, rng, policy=rng.choice(["random", "reverse"]), garbage=True, pack_cache=True)
+        data = im.build(tree)
+        path = os.path.join(ctx.work, "c06_fit_%d.img" % i)
+        open(path, "wb").write(data)
+        jobs.append((path, 1760, flav, flatten(tree), {"flavour": flav, "blocks": 1760, "policy": "exact-fit cache block", "entries": len(flatten(tree))}))
 
     def one(j):
         path, n, flav, known, meta = j
